@@ -38,11 +38,35 @@ pub fn generate(prop: &str, tier: &str, seed: u64, outdir: &str) {
         "C13" => gen_c13(&mut out, &mut rng, thorough),
         "C19" => gen_c19(&mut out, &mut rng, thorough),
         "C14" => gen_c14(&mut out, &mut rng, thorough),
-        "C07" => gen_c07(&mut out, &mut rng, thorough),
-        "C11" => gen_c11(&mut out, &mut rng, thorough),
-        "C01" | "C03" | "C04" | "C05" | "C08" => gen_hist_prop(prop, &mut out, &mut rng, thorough),
+        "C07" => {
+            gen_c07(&mut out, &mut rng, thorough);
+            gen_gate_sessions(&mut out, &mut rng, thorough);
+        }
+        "C11" => {
+            gen_c11(&mut out, &mut rng, thorough);
+            gen_stream_sessions(&mut out, &mut rng, thorough);
+        }
+        "C04" => {
+            gen_hist_prop(prop, &mut out, &mut rng, thorough);
+            gen_c06(&mut out, &mut rng, false);
+        }
+        "C01" | "C03" | "C05" | "C08" => gen_hist_prop(prop, &mut out, &mut rng, thorough),
         "C12" => gen_c12(&mut out, &mut rng, thorough),
         "C16" => gen_c16(&mut out, &mut rng, thorough),
+        "C15" => {
+            let scripts: Vec<usize> = if thorough { (0..crate::faults::NUM_SCRIPTS).collect() } else { vec![0, 1, 2, 4, 5] };
+            for n in scripts {
+                for kind in ["write", "read", "seek"] {
+                    for mode in ["transient", "persistent"] {
+                        if !thorough && kind != "write" && mode == "persistent" && n > 1 {
+                            continue;
+                        }
+                        out.req("fault_sweep", format!("@fault_sweep {n} {kind} {mode}"));
+                    }
+                }
+            }
+            let _ = &mut rng;
+        }
         "C10" => gen_c10(&mut out, &mut rng, thorough),
         "C06" => gen_c06(&mut out, &mut rng, thorough),
         "C20" => gen_c20(&mut out, &mut rng, thorough),
@@ -1155,5 +1179,134 @@ fn gen_c16(out: &mut Out, rng: &mut Rng, thorough: bool) {
             }
         }
         out.req("readonly_close", format!("@readonly_close {}", rng.pick(&crate::hist::CLOSE_MODES)));
+    }
+}
+
+// ------------------------------------------------------------------------------------
+// C07: the insert / update gate (invalid <=> refused), per column kind
+
+fn gen_gate_sessions(out: &mut Out, rng: &mut Rng, thorough: bool) {
+    let n = if thorough { 3000 } else { 200 };
+    let cats = ["Identifier", "Property", "UpperCase", "LowerCase", "Integer", "DoubleInteger", "Guid", "Version", "Language", "Cabinet", "Text"];
+    let strs = ["", "a", "A", "Id_1", "%Id", "9x", "12", "-7", "+7", "32768", "1.2.3", "1.2.3.4.5", "1033,1041", "{34AB5C53-9B30-4E14-AEF0-2C1C7BA826C0}", "file.txt", "#Cab", "toolongname.text", "\u{e9}\u{e9}\u{e9}\u{e9}\u{e9}.txt", "Zed", "b"];
+    for _ in 0..n {
+        out.req("new", "new 0".into());
+        let mut k = ColDef::new("K", CT::I16);
+        k.key = true;
+        let mut cols = vec![k];
+        for j in 0..(1 + rng.below(3)) {
+            let ct = match rng.below(4) {
+                0 => CT::I16,
+                1 => CT::I32,
+                _ => CT::Str(*rng.pick(&[0usize, 3, 8, 40])),
+            };
+            let mut c = ColDef::new(&format!("C{j}"), ct.clone());
+            c.nullable = rng.chance(1, 2);
+            match ct {
+                CT::Str(_) => {
+                    if rng.chance(2, 3) {
+                        c.cat = Some(*rng.pick(&cats));
+                    }
+                    if rng.chance(1, 5) {
+                        c.enums = vec!["a".into(), "Zed".into(), "12".into()];
+                    }
+                }
+                _ => {
+                    if rng.chance(1, 2) {
+                        c.range = Some(*rng.pick(&[(0, 10), (1, 100000), (-32768, 10), (-40000, 40000), (5, 5)]));
+                    }
+                }
+            }
+            cols.push(c);
+        }
+        let toks: Vec<String> = cols.iter().map(|c| c.tok()).collect();
+        out.req("create_table", format!("create_table {} {}", hex_of_str("G"), toks.join(" ")));
+        let mut key = 0;
+        for _ in 0..(4 + rng.below(10)) {
+            key += 1;
+            let mut row = vec![V::Int(key)];
+            for c in &cols[1..] {
+                let v = match rng.below(6) {
+                    0 => V::Null,
+                    1 => V::Int(*rng.pick(&[0, 5, 6, 10, 11, -32768, -32767, 32767, 32768, 65541, 100000, 100001, i32::MIN, i32::MAX, -40000, -40001])),
+                    _ => match c.ct {
+                        CT::Str(_) => V::Str(rng.pick(&strs).to_string()),
+                        _ => V::Int(*rng.pick(&[0, 1, 5, 10, 11, 32767, 32768, -32768, 65541, 40000, 100000])),
+                    },
+                };
+                row.push(v);
+            }
+            if rng.chance(1, 20) {
+                row.pop();
+            }
+            if rng.chance(1, 2) {
+                let mut parts = vec!["1".to_string(), row.len().to_string()];
+                for v in &row {
+                    parts.push(v.tok());
+                }
+                out.req("gate_insert", format!("insert {} {}", hex_of_str("G"), parts.join(" ")));
+            } else if row.len() > 1 {
+                let j = 1 + rng.below(row.len() as u64 - 1) as usize;
+                out.req("gate_update", format!("update {} 1 {} {} -", hex_of_str("G"), hex_of_str(&cols[j.min(cols.len() - 1)].name), row[j].tok()));
+            }
+            if rng.chance(1, 3) {
+                out.req("snapshot", "snapshot".into());
+            }
+        }
+        out.req("snapshot", "snapshot".into());
+        if rng.chance(1, 3) {
+            out.req("reopen", format!("reopen {}", rng.pick(&crate::hist::CLOSE_MODES)));
+            out.req("snapshot", "snapshot".into());
+        }
+    }
+}
+
+// ------------------------------------------------------------------------------------
+// C11: stream contents (writes, overwrites, removals, interleaved with table operations)
+
+fn gen_stream_sessions(out: &mut Out, rng: &mut Rng, thorough: bool) {
+    let n = if thorough { 3000 } else { 250 };
+    let names = ["logo", "Icon.1", "bin data", "x", "\u{4e2d}\u{6587}", "A_very_long_stream_name_012345", "__init__", "xy__z", "__", "a.b_c", "UPPER", "upper", "N1", "n1", "s p a c e", "\u{5}Odd", "t\u{4840}t"];
+    let bad = ["", "a/b", "a\\b", "a:b", "a!b", "\u{4840}T", "\u{3800}", "\u{47ff}x", "this_name_is_far_too_long_to_fit_into_a_compound_file_directory_entry", "\u{5}SummaryInformation", "_StringPool", "."];
+    let sizes = [0usize, 1, 26, 63, 64, 65, 4095, 4096, 4097, 6000, 8192, 9000];
+    for _ in 0..n {
+        out.req("new", format!("new {}", rng.below(3)));
+        if rng.chance(1, 3) {
+            out.req("create_table", format!("create_table {} 4b:i16:K:-:-:-:- 56:s0:N:-:-:-:-", hex_of_str("T")));
+        }
+        for _ in 0..(3 + rng.below(14)) {
+            let name = if rng.chance(1, 8) { rng.pick(&bad).to_string() } else { rng.pick(&names).to_string() };
+            let h = hex_of_str(&name);
+            match rng.below(12) {
+                0 | 1 | 2 | 3 | 4 => {
+                    let len = *rng.pick(&sizes);
+                    let seed = rng.below(251) as usize;
+                    let data: Vec<u8> = (0..len).map(|i| (i * 13 + seed) as u8).collect();
+                    out.req("stream_write", format!("stream_write {h} {}", hex_of_bytes(&data)));
+                }
+                5 => out.req("stream_remove", format!("stream_remove {h}")),
+                6 => out.req("stream_read", format!("stream_read {h}")),
+                7 => out.req("has_stream", format!("has_stream {h}")),
+                8 => out.req("streams", "streams".into()),
+                9 => {
+                    out.req("table_op", format!("insert {} 1 2 I{} S{}", hex_of_str("T"), rng.below(50), hex_of_str("v")));
+                }
+                10 => {
+                    out.req("snapshot", "snapshot".into());
+                    out.req("reopen", format!("reopen {}", rng.pick(&crate::hist::CLOSE_MODES)));
+                    out.req("snapshot", "snapshot".into());
+                }
+                _ => {
+                    // the table and special streams are not reachable through the stream interface
+                    let special = *rng.pick(&["_Tables", "_Columns", "_StringPool", "_StringData", "_Validation", "T"]);
+                    out.req("special_read", format!("stream_read {}", hex_of_str(special)));
+                    out.req("special_remove", format!("stream_remove {}", hex_of_str(special)));
+                }
+            }
+        }
+        out.req("streams", "streams".into());
+        out.req("snapshot", "snapshot".into());
+        out.req("reopen", format!("reopen {}", rng.pick(&crate::hist::CLOSE_MODES)));
+        out.req("snapshot", "snapshot".into());
     }
 }
